@@ -74,3 +74,23 @@ package kfake
 //@   loop 13 exit [aborted-index-scanned-to-its-end] j >= len(pd.abortedTxns)
 //@   site store FirstOffset#0 assert [listed-transactions-overlap-the-served-range] val == e.firstOffset && e.firstOffset < upperBound
 //@   site store ProducerID#0 assert [listed-with-its-producer] val == e.producerID
+
+// ---- C32: incremental fetch sessions return every partition whose data changed ----
+// updateAndFilterResponse decides per partition whether it stays in an incremental response: a partition that
+// carries record batches, carries an error, is not yet in the session, or is answered in a full (unfiltered)
+// response is ALWAYS kept; so is one whose high watermark or log start moved since it was last sent.
+//@ func (s *fetchSession) updateAndFilterResponse(resp *kmsg.FetchResponse, filter bool)
+//@   prop C32
+//@   loop 1 backedge [a-partition-with-records-is-never-filtered-out] len(rp.RecordBatches) > 0 ==> include
+//@   loop 1 backedge [errors-new-partitions-and-full-responses-are-kept] (!filter || !ok || rp.ErrorCode != 0) ==> include
+
+// trimAbortedTxns (after DeleteRecords / retention moved the log start): an aborted-transaction entry is dropped
+// only when the WHOLE transaction lies before the log start - the binary search keeps every entry whose last offset
+// is at or after it, so a read_committed fetch still learns about an aborted transaction that straddles the start.
+//@ func (pd *partData) trimAbortedTxns$1(i int) (keep bool)
+//@   prop C32 C05
+//@   ensures [kept-while-any-part-of-the-transaction-remains] keep == ((*pd).abortedTxns[i].lastOffset >= (*pd).logStartOffset)
+//@ func (pd *partData) trimAbortedTxns()
+//@   prop C32 C05
+//@   site call Search#0 assert [searches-the-whole-index] arg0 == len(pd.abortedTxns)
+//@   ensures [a-suffix-is-kept] reached($Search0)
